@@ -9,14 +9,14 @@ git -C $S apply "$P" || { echo "patch does not apply"; exit 3; }
 export ACTS_REPO=$S VCHECK_SCRATCH_OUT=${S}_out
 mkdir -p ${S}_out
 if [ "$1" = "all" ]; then
-  /verif/vcheck C13 > /dev/null 2>&1
-  printf "%s\n" 01 02 03 04 05 06 07 08 09 10 11 12 13 14 15 16 17 18 19 20 | xargs -P 10 -I{} sh -c "/verif/vcheck C{} > ${S}_out/C{}.out 2>&1; echo \"C{} rc=\$?\" > ${S}_out/C{}.rc"
+  ${VCODE:-/verif}/vcheck C13 > /dev/null 2>&1
+  printf "%s\n" 01 02 03 04 05 06 07 08 09 10 11 12 13 14 15 16 17 18 19 20 | xargs -P 10 -I{} sh -c "${VCODE:-/verif}/vcheck C{} > ${S}_out/C{}.out 2>&1; echo \"C{} rc=\$?\" > ${S}_out/C{}.rc"
   for i in 01 02 03 04 05 06 07 08 09 10 11 12 13 14 15 16 17 18 19 20; do
     rc=$(cat ${S}_out/C$i.rc); case "$rc" in *"rc=0") ;; *) echo "== $rc"; grep -E "^  violated|^UNDECIDED|^ERROR|Traceback" ${S}_out/C$i.out | cut -c1-${CUT:-400} | head -${HEAD:-8};; esac
   done
 else
   for prop in "$@"; do
-    /verif/vcheck $prop > ${S}_out/$prop.out 2>&1; rc=$?
+    ${VCODE:-/verif}/vcheck $prop > ${S}_out/$prop.out 2>&1; rc=$?
     echo "== $prop rc=$rc"; grep -E "^  violated|^UNDECIDED|^ERROR|Traceback" ${S}_out/$prop.out | cut -c1-${CUT:-400} | head -${HEAD:-12}
   done
 fi
